@@ -310,5 +310,3 @@ func normPath(msg string) string {
 	}
 	return b.String()
 }
-
-func runC04(c *Case, budget int, res *CaseResult) { panic("c04: not built yet") }
